@@ -1,5 +1,7 @@
 import Proofs.TrieBuild
 import Proofs.TrieOfTable
+import Proofs.TrieShape
+import Proofs.TrieBuildClosed
 import Properties.C03Trie
 /-!
 # C03 (trie clause, builder) — lm/search_trie.cc between the ARPA n-grams and the trie memory
@@ -18,18 +20,20 @@ theorem trie_build_represents (a : Arpa) (wf : WellFormed a) … :
     buildTrie fadd order bound start (gramsOf a) = .ok M → ∃ rng, Represents fval M (Table.build a) rng
 theorem trie_end_to_end … : (fullScore (TrieLM.search fval M) s w).1.prob = score a h w      -- = trie_prob ∘ trie_build_represents
 ```
-Status after round 4 (all general, unbounded unless marked):
-* G1 CLOSED — `visit_order_strict`: the insertion-sorted visit order of a list that passes the duplicate check is strictly
-  increasing; `trie_build_visit` applies the `BlankManager` theorem to it.
-* G2 CLOSED modulo `ShapeOK` — `ofTable_represents`: `Represents (ofTable bt …) (tableOf (ftOf bt))` for every well-formed bit
-  table (`BTOK`, `ValsOK`), from `trie_regions_read` (regions of fixed-stride records ⇒ every slot reads back), the level
-  combinatorics (Proofs/TrieLevels.lean) and the C20 read lemmas; corollary `trie_build_refines` (FullScore over the memory
-  the model builder writes = FullScore over the bit table, no `Represents` hypothesis).  `ShapeOK` (G2b, open in general) =
-  the layout facts of the C04 model for the plain shape: widths `RequiredBits`, `total_bits = word+63+inline`, regions in
-  file order; proved for the example by `decide` (`example_shape_ok`), and the layout model itself is compared with the real
-  `SetupMemory` on every run of check C04.
-* G3 OPEN — `blankProb` / extension marks = `Table.build a` (value encoding between exact rationals and float bits), hence
-  `trie_build_represents`, `trie_end_to_end` and `trie_end_to_end_closed` are NOT proved.
+Status after round 5 (all general, unbounded unless marked):
+* G1 CLOSED — `visit_order_strict`, `trie_build_visit`.
+* G2 + G2b CLOSED — `ofTable_represents_general`, `trie_build_refines_general`: `Represents (ofTable bt …) (tableOf (ftOf bt))` and
+  FullScore over the built memory = FullScore over the bit table for every well-formed bit table (`BTOK`, `ValsOK`) with sizes
+  below 2^57 (`SmallOK`); the layout facts `ShapeOK` are now derived from the C04 layout model (`shape_ok`:
+  closed form of `trieMiddleLoop`, widths from `RequiredBits`, no `uint8` wrap, regions in file order).
+* G3 CLOSED FOR SUFFIX-CLOSED MODELS — `trie_build_represents_closed`, `trie_end_to_end_closed`: for every well-formed
+  suffix-closed model with a value encoding (`ArpaEnc`) the builder model succeeds without blanks, its bit table *is*
+  `Table.build a` (`closed_table_eq`: values, extends-left = has a child, extends-right = non-zero back-off / context of a
+  longer n-gram / hallucinated `<unk>`), hence FullScore over the memory the trie builder writes = `score a h w`.  Instance:
+  `ex_enc`, `example_end_to_end_closed`, `example_end_to_end_null`.
+* G3 OPEN FOR MODELS WITH BLANKS — `blankProb` (float sum of back-offs in increasing context length) = `score a ctx w` and the
+  message-based marks = `Table.build`'s; `trie_build_represents_partial` / `trie_build_visit` characterise which blanks are
+  created and on which basis, the value/marks correspondence is not composed.
 * G4 OPEN — `ofTable` for ArrayBhiksha / SeparatelyQuantize layouts (compared through lookups only).
 -/
 namespace KV.C03TrieBuild
@@ -171,5 +175,162 @@ theorem example_build_refines (s : KV.State.State) (w : Word) (hw : w < 6) (hs :
     (KV.Score.fullScore (search f32ToRat (ofTable KV.C03Trie.ExampleBuilt.bt 6 3 192)) s w).1.prob
       = (KV.Score.fullScore (KV.Score.tableSearch (tableOf (ftOf f32ToRat KV.C03Trie.ExampleBuilt.bt 3) 3)) s w).1.prob :=
   (trie_build_refines f32ToRat _ 6 3 192 example_btok example_vals example_shape_ok s w hw hs).1
+
+
+/-! ## Round 5: G2b closed — no layout hypothesis -/
+
+/-- **G2b** — the layout facts follow from the C04 layout model (`Binary.trieSetup`: closed form of the middle loop, widths
+from `RequiredBits`, no `uint8` wrap, regions in file order) whenever the vocabulary bound and the level sizes are below 2^57 -/
+theorem shape_ok (bt : BT) (bound order start : Nat) (sm : SmallOK bt bound order) : ShapeOK bt bound order start :=
+  shapeOK_of_small bt bound order start sm
+
+/-- `Represents (ofTable bt …) (tableOf bt)` with no layout hypothesis -/
+theorem ofTable_represents_general (fval : Nat → Rat) (bt : BT) (bound order start : Nat) (ok : BTOK bt bound order) (hv : ValsOK bt)
+    (sm : SmallOK bt bound order) :
+    Represents fval (ofTable bt bound order start) (tableOf (ftOf fval bt order) order) (rngOf bt bound) :=
+  ofTable_represents fval bt bound order start ok hv (shape_ok bt bound order start sm)
+
+open KV.Score KV.State in
+/-- **trie_build_refines_general** — FullScore over the memory the model builder writes = FullScore over the bit table; hypotheses
+only about the table (well-formed, 32-bit values, sizes below 2^57) -/
+theorem trie_build_refines_general (fval : Nat → Rat) (bt : BT) (bound order start : Nat) (ok : BTOK bt bound order) (hv : ValsOK bt)
+    (sm : SmallOK bt bound order) (s : State) (w : Word) (hw : w < bound) (hs : ∀ x ∈ s.words.take s.length, x < bound) :
+    (fullScore (search fval (ofTable bt bound order start)) s w).1.prob
+        = (fullScore (tableSearch (tableOf (ftOf fval bt order) order)) s w).1.prob ∧
+    (fullScore (search fval (ofTable bt bound order start)) s w).2
+        = (fullScore (tableSearch (tableOf (ftOf fval bt order) order)) s w).2 := by
+  have := trie_build_refines fval bt bound order start ok hv (shape_ok bt bound order start sm) s w hw hs
+  exact ⟨this.1, this.2.2.2.2⟩
+
+
+/-! ## Round 5: G3 for suffix-closed models — end to end without `Represents` -/
+
+open KV.Table KV.Score KV.State in
+/-- **trie_build_represents_closed** — for every well-formed suffix-closed ARPA model (every `lmplz` output) with a value
+encoding (`ArpaEnc`: `P`/`B` give the float bits `read_arpa.cc` stores, `fval` decodes them exactly; zero back-off is `-0.0`
+except the hallucinated `<unk>`), sizes below 2^57: the model of `lm/search_trie.cc` (`buildTable`: visit order, `BlankManager`,
+messages, extension marks) succeeds, creates no blank, and the memory the fold `ofTable` writes from its bit table
+**represents `Table.build a`** — entries, probabilities, back-offs, extends-left (= some longer n-gram ends in it) and
+extends-right (= non-zero back-off, or context of a longer n-gram, or the hallucinated `<unk>`). -/
+theorem trie_build_represents_closed (fval : Nat → Rat) (fadd : Nat → Nat → Nat) (a : Arpa) (bound start : Nat)
+    (P B : List Word → Nat) (enc : ArpaEnc fval a bound P B)
+    (sm : SmallOK (closedTable a.order (visitOrder (gramsOf a P B))) bound a.order) :
+    ∃ b, buildTable fadd a.order (gramsOf a P B) = .ok b ∧ b.blanks = [] ∧
+      Represents fval (ofTable b.table bound a.order start) (Table.build a) (rngOf b.table bound) := by
+  obtain ⟨counts, hb⟩ := buildTable_closed fadd enc
+  refine ⟨_, hb, rfl, ?_⟩
+  have := ofTable_represents_general fval _ bound a.order start (closedTable_btok enc) (closedTable_vals enc) sm
+  rw [closed_table_eq enc] at this
+  exact this
+
+open KV.Table KV.Score KV.State in
+/-- **trie_end_to_end_closed** — ARPA → trie builder → memory → every query = the ARPA back-off recursion, with no `Represents`
+and no layout hypothesis: for every well-formed suffix-closed model, `FullScore` over the memory the trie builder writes returns
+`score a h w` for every state reached by left-to-right scoring and every vocabulary word (ids below the bound). -/
+theorem trie_end_to_end_closed (fval : Nat → Rat) (fadd : Nat → Nat → Nat) (a : Arpa) (bound start : Nat)
+    (P B : List Word → Nat) (enc : ArpaEnc fval a bound P B)
+    (sm : SmallOK (closedTable a.order (visitOrder (gramsOf a P B))) bound a.order)
+    (h : List Word) (st : State) (sf : StateFor a h st) (w : Word) (hw : a.gram [w] ≠ none)
+    (hwb : w < bound) (hs : ∀ x ∈ st.words.take st.length, x < bound) :
+    ∃ M, buildTrie fadd a.order bound start (gramsOf a P B) = .ok M ∧
+      (fullScore (search fval M) st w).1.prob = score a h w := by
+  obtain ⟨b, hb, _, rep⟩ := trie_build_represents_closed fval fadd a bound start P B enc sm
+  refine ⟨ofTable b.table bound a.order start, by simp [buildTrie, hb], ?_⟩
+  have hbd : (ofTable b.table bound a.order start).bound = bound :=
+    ofTable_bound _ bound a.order start (by have := enc.wf.order_ge; omega)
+  exact KV.C03Trie.trie_prob a enc.wf (fun _ => false) fval _ _ rep h st sf w hw (by rw [hbd]; exact hwb) (by rw [hbd]; exact hs)
+
+
+/-- **blank_value_partial** (towards models with blanks): under an exact addition shared by builder and table, the probability
+the builder gives a blank is its basis (probability of the longest real proper prefix, `trie_build_represents_partial`) plus the
+back-offs of the asked contexts `to[1..1+i)`, `i = basedOn … order-1`, in that order — the operand list of the back-off recursion
+`score`.  Missing for `trie_end_to_end` with blanks: identifying this sum with `score a ctx w` and the message-based extension
+marks with `Table.build`'s. -/
+theorem blank_value_partial (fval : Nat → Rat) (fadd : Nat → Nat → Nat) (hadd : ∀ x y, fval (fadd x y) = fval x + fval y)
+    (hz : fval minusZero = 0 ∧ fval plusZero = 0) (gs : List Gram) (b : Blank) :
+    fval (blankProb fadd gs b) = fval b.basis + ((messageKeys b).map (msgValue fval gs)).sum :=
+  blankProb_value fval fadd hadd hz gs b
+
+set_option maxRecDepth 8000
+section ExampleClosed
+open KV.Table KV.Score
+/-- a small suffix-closed bigram model: `<unk>`=0, `<s>`=1, `</s>`=2, `a`=3; bigrams `<s> a`, `a </s>` (reversed keys) -/
+def exArpa : Arpa :=
+  { order := 2,
+    entries := [([0], ⟨-2, 0, false⟩), ([1], ⟨-99, -1/2, false⟩), ([2], ⟨-5/4, 0, false⟩), ([3], ⟨-3/4, -1/4, false⟩),
+                ([3, 1], ⟨-1/2, 0, false⟩), ([2, 3], ⟨-7/8, 0, false⟩)],
+    unkHallucinated := false }
+
+def exBits : List (List Word × (Nat × Nat)) :=
+  [([0], (3221225472, 2147483648)), ([1], (3267756032, 3204448256)), ([2], (3214934016, 2147483648)),
+   ([3], (3208642560, 3196059648)), ([3, 1], (3204448256, 2147483648)), ([2, 3], (3210739712, 2147483648))]
+
+def exP (g : List Word) : Nat := ((exBits.lookup g).getD (0, 0)).1
+def exB (g : List Word) : Nat := ((exBits.lookup g).getD (0, 0)).2
+
+theorem ex_gram_cases (g : List Word) (e : Entry) (h : exArpa.gram g = some e) : (g, e) ∈ exArpa.entries :=
+  KV.Score.lookup_some_mem _ _ _ h
+
+theorem ex_real (g : List Word) (h : exArpa.gram g ≠ none) :
+    g = [0] ∨ g = [1] ∨ g = [2] ∨ g = [3] ∨ g = [3, 1] ∨ g = [2, 3] := by
+  cases hg : exArpa.gram g with
+  | none => exact absurd hg h
+  | some e =>
+    have := ex_gram_cases g e hg
+    simp [exArpa] at this
+    rcases this with h | h | h | h | h | h <;> simp [h.1]
+
+theorem ex_wf : WellFormed exArpa := by
+  refine ⟨by decide, ?_, ?_, ?_, ?_⟩
+  · intro g h; rcases ex_real g h with rfl | rfl | rfl | rfl | rfl | rfl <;> simp
+  · intro g h; rcases ex_real g h with rfl | rfl | rfl | rfl | rfl | rfl <;> decide
+  · intro x g hg h
+    have := ex_real (x :: g) h
+    simp at this
+    rcases this with ⟨_, rfl⟩ | ⟨_, rfl⟩ | ⟨_, rfl⟩ | ⟨_, rfl⟩ | ⟨_, rfl⟩ | ⟨_, rfl⟩ <;> first | exact absurd rfl hg | decide
+  · intro g e h hl
+    have := ex_gram_cases g e h
+    simp [exArpa] at this
+    rcases this with ⟨rfl, rfl⟩ | ⟨rfl, rfl⟩ | ⟨rfl, rfl⟩ | ⟨rfl, rfl⟩ | ⟨rfl, rfl⟩ | ⟨rfl, rfl⟩ <;> first | rfl | (simp [exArpa] at hl)
+
+theorem ex_sc : SuffixClosed exArpa := by
+  intro g h hl
+  rcases ex_real g h with rfl | rfl | rfl | rfl | rfl | rfl <;> first | decide | (exfalso; simp at hl)
+
+theorem ex_enc : ArpaEnc f32ToRat exArpa 4 exP exB := by
+  refine ⟨ex_wf, ex_sc, by decide, by decide, ?_, ?_, ?_, by decide +kernel⟩
+  · intro w hw
+    have : w = 0 ∨ w = 1 ∨ w = 2 ∨ w = 3 := by omega
+    rcases this with rfl | rfl | rfl | rfl <;> decide
+  · intro g e h
+    have := ex_gram_cases g e h
+    simp [exArpa] at this
+    rcases this with ⟨rfl, rfl⟩ | ⟨rfl, rfl⟩ | ⟨rfl, rfl⟩ | ⟨rfl, rfl⟩ | ⟨rfl, rfl⟩ | ⟨rfl, rfl⟩ <;> decide +kernel
+  · intro g e h
+    have := ex_gram_cases g e h
+    simp [exArpa] at this
+    rcases this with ⟨rfl, rfl⟩ | ⟨rfl, rfl⟩ | ⟨rfl, rfl⟩ | ⟨rfl, rfl⟩ | ⟨rfl, rfl⟩ | ⟨rfl, rfl⟩ <;> decide +kernel
+
+theorem ex_small : SmallOK (closedTable exArpa.order (visitOrder (gramsOf exArpa exP exB))) 4 exArpa.order :=
+  ⟨by decide, by decide, by decide +kernel⟩
+
+/-- **non-vacuity of `trie_end_to_end_closed`**: all hypotheses hold for the example model; so the trie builder model succeeds
+on it and every `FullScore` over the memory it writes is the ARPA recursion -/
+theorem example_end_to_end_closed (fadd : Nat → Nat → Nat) (start : Nat) (h : List Word) (st : KV.State.State)
+    (sf : StateFor exArpa h st) (w : Word) (hw : exArpa.gram [w] ≠ none) (hwb : w < 4)
+    (hs : ∀ x ∈ st.words.take st.length, x < 4) :
+    ∃ M, buildTrie fadd exArpa.order 4 start (gramsOf exArpa exP exB) = .ok M ∧
+      (fullScore (search f32ToRat M) st w).1.prob = score exArpa h w :=
+  trie_end_to_end_closed f32ToRat fadd exArpa 4 start exP exB ex_enc ex_small h st sf w hw hwb hs
+
+
+/-- … e.g. from the null context, for every word of the vocabulary -/
+theorem example_end_to_end_null (fadd : Nat → Nat → Nat) (start : Nat) (w : Word) (hwb : w < 4) :
+    ∃ M, buildTrie fadd exArpa.order 4 start (gramsOf exArpa exP exB) = .ok M ∧
+      (fullScore (search f32ToRat M) KV.Score.nullContextState w).1.prob = score exArpa [] w := by
+  have hw : exArpa.gram [w] ≠ none := ex_enc.unigrams w hwb
+  exact example_end_to_end_closed fadd start [] _ (KV.C01.stateFor_null exArpa) w hw hwb (by simp [KV.Score.nullContextState])
+
+end ExampleClosed
 
 end KV.C03TrieBuild
